@@ -710,6 +710,50 @@ def _loop_rules(ck: Check, prog: Program, ci: ClassInfo, schema: FuncInfo) -> No
         ck.finding('COMPLETE-LOOP', schema.qualname, 'method entries can be skipped or duplicated', schema.module.rel, h.line,
                    f'the per-method loop has {len(skips)} continue/break statements and {len(stores)} entry stores: every registered method '
                    f'must be described exactly once under its exposed name')
+    # ... and the loop runs over every (endpoint, method) pair of the methods map: the sequence it iterates is followed back to the
+    # `methods_map` argument through list-building stages only (flow.py); a keyed container on the way (dict / set) collapses pairs
+    from ..flow import Flow as _FlowM
+    flm = _FlowM(cfg)
+    it_nodes = [m_ for m_ in cfg.nodes if m_.kind == 'iter' and m_.ast is h.ast.iter]
+    mm_param = next((p.arg for p in schema.params if 'methods' in p.arg), None)
+    lossy = None
+
+    def to_source(n_, e_, depth=0):
+        nonlocal lossy
+        if depth > 6 or lossy:
+            return
+        txt_ = norm(e_)
+        if mm_param and (dotted(e_) == mm_param or isinstance(e_, ast.Call) and isinstance(e_.func, ast.Attribute) and
+                         dotted(e_.func.value) == mm_param and e_.func.attr in ('items', 'values', 'get')):
+            return
+        if isinstance(e_, ast.Name) and e_.id in {y.id for x_ in cfg.nodes if x_.kind == 'next' for y in ast.walk(x_.ast.target) if isinstance(y, ast.Name)}:
+            return          # an outer loop variable / comprehension element
+        for al in flm.alts(n_, e_):
+            v = al.expr
+            if v is not e_ and not isinstance(v, ast.Name):
+                to_source(al.node or n_, v, depth + 1)
+                continue
+            for sq in flm.seq(n_, v):
+                if sq.kind == 'iter':
+                    if sq.filters or sq.reordered or not sq.total:
+                        lossy = f'`{norm(v)[:70]}` filters / reorders the pairs'
+                        return
+                    if sq.iter is not None and not (isinstance(sq.iter, ast.Name) and sq.comp is not None and
+                                                    sq.iter.id in {y.id for g_ in getattr(sq.comp, 'generators', []) for y in ast.walk(g_.target) if isinstance(y, ast.Name)}):
+                        to_source(sq.node or n_, sq.iter, depth + 1)
+                elif sq.kind == 'opaque':
+                    ex = sq.expr if sq.expr is not None else v
+                    if any(isinstance(y, (ast.DictComp, ast.SetComp, ast.Dict, ast.Set)) or
+                           isinstance(y, ast.Call) and dotted(y.func) in ('dict', 'set', 'frozenset', 'dict.fromkeys') for y in ast.walk(ex)):
+                        lossy = f'`{norm(ex)[:80]}` goes through a keyed container (dict / set): pairs with an equal key collapse into one'
+                        return
+    if mm_param:
+        to_source(it_nodes[0] if it_nodes else h, h.ast.iter)
+    ck.ob('COMPLETE-LOOP', f'{ci.name}.schema: the per-method loop runs over every (endpoint, method) pair of the methods map', lossy is None)
+    if lossy:
+        ck.finding('COMPLETE-LOOP', schema.qualname, 'method pairs can be lost before the loop', schema.module.rel, h.line,
+                   f'{lossy}: methods of different endpoints that share a name (or equal pairs) are described only once, so a registered '
+                   f'method is missing from the document')
     if stores:
         txt = norm(stores[0].ast)
         name_ok = 'method.name' in txt
@@ -741,7 +785,14 @@ def _ref_closed(ck: Check, prog: Program, ci: ClassInfo, funcs: List[FuncInfo]) 
                 if isinstance(y, ast.Call) and isinstance(y.func, ast.Attribute) and y.func.attr == 'update' and y.args:
                     a = y.args[0]
                     if isinstance(a, ast.DictComp):
-                        regs.append(_key_prefix(a.key))
+                        kp = _key_prefix(a.key)
+                        # the model-name part of the key is the extractor's component name itself (what `{model}` is filled with)
+                        last = a.key.values[-1].value if isinstance(a.key, ast.JoinedStr) and a.key.values and \
+                            isinstance(a.key.values[-1], ast.FormattedValue) else a.key
+                        tnames = {y.id for g_ in a.generators for y in ast.walk(g_.target) if isinstance(y, ast.Name)}
+                        if not (isinstance(last, ast.Name) and last.id in tnames):
+                            kp = f'{kp}<{norm(last)[:50]}>'
+                        regs.append(kp)
                     elif isinstance(a, ast.Name) and 'component' in a.id:
                         regs.append('')
             # the registration must not depend on the CONTENT of the returned schema (references can be nested anywhere in it)
@@ -905,6 +956,9 @@ def _dict_keys(v: ast.expr, m: FuncInfo) -> Optional[Set[str]]:
 
 
 MUTANTS = [
+    dict(name='method-pairs-deduplicated-by-name', file='pjrpc/server/specs/openapi.py',
+         find='        for prefix, method in methods_list:\n', replace='        for prefix, method in list({m_.name: (p_, m_) for p_, m_ in methods_list}.values()):\n',
+         expect='COMPLETE-LOOP'),
     dict(name='annotation-tags-kept-as-a-generator', file='pjrpc/server/specs/openapi.py',
          find='            tags=[\n                tag if isinstance(tag, Tag) else Tag(name=tag) for tag in tags\n            ] if',
          replace='            tags=(\n                tag if isinstance(tag, Tag) else Tag(name=tag) for tag in tags\n            ) if', expect='GEN-STATELESS'),
